@@ -81,7 +81,7 @@ request_module(InterrogateModuleDef *def) {
     _modules.push_back(def);
   }
 
-  if (def->num_unique_names > 0 && def->library_name != nullptr) {
+  if (def->num_unique_names > 0 && def->library_hash_name != nullptr) {
     // Define a lookup by hash for this module, mainly so we can look up
     // functions by their unique names.
     _modules_by_hash[def->library_hash_name] = def;
